@@ -56,6 +56,27 @@ theorem resolve_nested_irrelevant (s : SupSpec) (hw : s.sup.WF = true) (a b : As
     v ∈ closure s.sup a ↔ v ∈ closure s.sup b :=
   mem_closure_congr_active s.sup hw a b hag v
 
+/-- Registration precondition: `mapsWF` holds exactly if every node mentioned by an existence mapping
+    is a node of the source graph. -/
+theorem mapsWF_iff (s : SupSpec) (srcNodes : List Node) :
+    mapsWF s srcNodes = true ↔
+      ∀ c e, (c, SupMapping.exist e) ∈ s.maps → ∀ p ∈ e.entries, p.1 ∈ srcNodes := by
+  unfold mapsWF
+  rw [List.all_eq_true]
+  constructor
+  · intro h c e hm p hp
+    have := h (c, .exist e) hm
+    simp only [List.all_eq_true] at this
+    simpa using this p hp
+  · intro h m hm
+    rcases m with ⟨c, mp⟩
+    cases mp with
+    | opt _ => rfl
+    | exist e =>
+      simp only [List.all_eq_true]
+      intro p hp
+      simpa using h c e hm p hp
+
 /-! Non-vacuity: outer choice mapped from a source choice, nested choice from node existence. -/
 def exSup : SupSpec :=
   { sup := { n := 6, derives := [], sel := [⟨0, [1, 2]⟩, ⟨2, [3, 4, 5]⟩], start := [0], incompat := [] },
